@@ -231,8 +231,8 @@ func spzRead(a *anchors, r *sx.Rep, read *ssa.Function, hdrT types.Type) {
 		r.Violate("PLANE-1", hkey, a.p.Pos(h.Call.Pos()), "the first stream operation is not binary.Read of the 16-byte Header")
 		return
 	case !h.OrderOK || !sx.IsGlobal(h.Order, "encoding/binary", "LittleEndian"):
+		hdrAlloc, _ = h.Data.(*ssa.Alloc)
 		r.Violate("LAY-2", hkey, a.p.Pos(h.Call.Pos()), "the SPZ header is little-endian")
-		return
 	default:
 		hdrAlloc, _ = h.Data.(*ssa.Alloc)
 		r.Hold("PLANE-1", hkey, a.p.Pos(h.Call.Pos()), "header read first: binary.Read(LittleEndian, *Header)")
@@ -1014,19 +1014,24 @@ type bitTerm struct {
 }
 
 // bitAssemble decodes an OR/ADD tree of zero-extended plane bytes shifted by constants.
-func bitAssemble(e *sx.Env, v ssa.Value, bufRoot ssa.Value, base sx.Poly) ([]bitTerm, bool) {
+func bitAssemble(e *sx.Env, v ssa.Value, bufRoot ssa.Value, base sx.Poly, ctx *sx.Ctx) ([]bitTerm, bool) {
 	switch x := v.(type) {
+	case *ssa.Parameter:
+		if nv, nctx := bindParam(x, ctx); nv != ssa.Value(x) {
+			return bitAssemble(e, nv, bufRoot, base, nctx)
+		}
+		return nil, false
 	case *ssa.Convert:
 		// widening of an unsigned byte
 		if b, ok := x.X.Type().Underlying().(*types.Basic); ok && b.Info()&types.IsUnsigned != 0 {
-			return bitAssemble(e, x.X, bufRoot, base)
+			return bitAssemble(e, x.X, bufRoot, base, ctx)
 		}
 		return nil, false
 	case *ssa.BinOp:
 		switch x.Op {
 		case token.OR, token.ADD, token.XOR:
-			l, ok1 := bitAssemble(e, x.X, bufRoot, base)
-			rr, ok2 := bitAssemble(e, x.Y, bufRoot, base)
+			l, ok1 := bitAssemble(e, x.X, bufRoot, base, ctx)
+			rr, ok2 := bitAssemble(e, x.Y, bufRoot, base, ctx)
 			if !ok1 || !ok2 {
 				return nil, false
 			}
@@ -1036,7 +1041,7 @@ func bitAssemble(e *sx.Env, v ssa.Value, bufRoot ssa.Value, base sx.Poly) ([]bit
 			if !ok {
 				return nil, false
 			}
-			l, ok := bitAssemble(e, x.X, bufRoot, base)
+			l, ok := bitAssemble(e, x.X, bufRoot, base, ctx)
 			if !ok {
 				return nil, false
 			}
@@ -1078,11 +1083,12 @@ func constU64(v ssa.Value) (uint64, bool) {
 // signExt decides SIGN-1 for one component assembled from `width` plane bytes starting at record offset first.
 func signExt(a *anchors, r *sx.Rep, e *sx.Env, key string, slot ssa.Value, bufRoot ssa.Value, base sx.Poly, first, width int64, at token.Pos) {
 	pos := a.p.Pos(at)
+	var ctx *sx.Ctx
 	W := uint(8 * width)
 	wantSign := uint64(1) << (W - 1)
 	wantExt := (^uint64(0) << W) & 0xffffffff
 	checkTerms := func(v ssa.Value) (string, bool) {
-		terms, ok := bitAssemble(e, v, bufRoot, base)
+		terms, ok := bitAssemble(e, v, bufRoot, base, ctx)
 		if !ok {
 			return "the component is not an OR of zero-extended plane bytes shifted by constants", false
 		}
@@ -1103,18 +1109,27 @@ func signExt(a *anchors, r *sx.Rep, e *sx.Env, key string, slot ssa.Value, bufRo
 		}
 		return strings.Join(d, " | "), true
 	}
-	// strip the final signed conversion
+	// strip the final signed conversion (looking into a small repository helper if the slot is a call)
 	v := slot
 	signedConv := false
-	for {
-		cv, ok := v.(*ssa.Convert)
-		if !ok {
-			break
+	for i := 0; i < 8; i++ {
+		if cv, ok := v.(*ssa.Convert); ok {
+			if b, ok := cv.Type().Underlying().(*types.Basic); ok && b.Info()&types.IsInteger != 0 && b.Info()&types.IsUnsigned == 0 {
+				signedConv = true
+			}
+			v = cv.X
+			continue
 		}
-		if b, ok := cv.Type().Underlying().(*types.Basic); ok && b.Info()&types.IsInteger != 0 && b.Info()&types.IsUnsigned == 0 {
-			signedConv = true
+		if c, ok := v.(*ssa.Call); ok && ctx == nil {
+			if callee := c.Call.StaticCallee(); callee != nil && callee.Blocks != nil && callee.Pkg == a.spz {
+				if rv, ok := singleReturn(callee); ok {
+					ctx = &sx.Ctx{Call: c, Depth: 1}
+					v = rv
+					continue
+				}
+			}
 		}
-		v = cv.X
+		break
 	}
 	// form (b): int32(x << (32-W)) >> (32-W)
 	if sh, ok := v.(*ssa.BinOp); ok && sh.Op == token.SHR {
